@@ -66,6 +66,10 @@ pub struct Config {
     /// readiness scripts may also fail (C07); otherwise they only flip between Ok and Pending
     #[serde(default = "yes")]
     pub script_errors: bool,
+    /// size of a connection burst (0 = no bursts): that many clients connect to one listener
+    /// before the accept loop runs again
+    #[serde(default)]
+    pub burst: usize,
 }
 
 fn yes() -> bool {
@@ -85,6 +89,7 @@ impl Config {
 #[derive(Serialize, Deserialize, Clone, Debug, PartialEq)]
 pub enum Action {
     Connect(usize),
+    ConnectBurst(usize),
     ClientClose(usize),
     AcceptStep,
     AcceptExpire,
@@ -519,6 +524,9 @@ fn enabled_actions(sim: &Sim) -> Vec<(Action, u32)> {
         for l in 0..cfg.listeners.len() {
             if !sim.o.listener_unreachable[l] {
                 en.push((Action::Connect(l), cfg.w_connect));
+                if cfg.burst > 0 && nconns + cfg.burst <= cfg.max_conns {
+                    en.push((Action::ConnectBurst(l), cfg.w_connect));
+                }
             }
         }
     }
@@ -973,6 +981,22 @@ async fn exec_action(sim: &mut Sim, a: Action) {
                 oracles::on_connect_failed(sim, l, &e);
             }
         },
+        Action::ConnectBurst(l) => {
+            let mut made = 0;
+            for _ in 0..sh.cfg.burst {
+                match sim.connect(l, false) {
+                    Ok(_) => made += 1,
+                    Err(e) => {
+                        oracles::on_connect_failed(sim, l, &e);
+                        break;
+                    }
+                }
+            }
+            sh.ctx(|ctx| {
+                ev!(ctx, "burst of {made} connections to l{l}");
+                ctx.bump("probe.connection_burst");
+            });
+        }
         Action::ClientClose(c) => {
             let mut conns = sh.conns.borrow_mut();
             // orderly half-close (FIN), so that the queued connection keeps its identity when it
